@@ -68,10 +68,10 @@ def run_cvc5(smt2: str, timeout_s=CVC5_TIMEOUT_S):
         os.unlink(name)
 
 
-def check(hyps, goal, want_model=True, both=False):
+def check(hyps, goal, want_model=True, both=False, timeout_ms=None, use_cvc5=True):
     """Decide hyps |= goal.  Returns dict(result= 'proved'|'refuted'|'unknown', backend, time_s, model, cached)."""
     s = z3.Solver()
-    s.set("timeout", Z3_TIMEOUT_MS)
+    s.set("timeout", timeout_ms or Z3_TIMEOUT_MS)
     for h in hyps:
         s.add(h)
     s.add(z3.Not(goal))
@@ -97,7 +97,7 @@ def check(hyps, goal, want_model=True, both=False):
     else:
         res["result"] = "unknown"
         res["reason"] = s.reason_unknown()
-    if res["result"] == "unknown" or both:
+    if (res["result"] == "unknown" and use_cvc5) or both:
         t1 = time.time()
         r2, out = run_cvc5(smt2)
         res["cvc5"] = r2
